@@ -88,7 +88,7 @@ type runner struct {
 func newRunner(prop, tier string, seed uint64, driver, replayDir, knownFile string) *runner {
 	r := &runner{prop: prop, tier: tier, seed: seed, driver: driver, replayDir: replayDir,
 		stats: map[string]*suiteStat{}, distinct: map[uint64]struct{}{}, sampleCnt: map[string]int{},
-		dist: map[string]int{}, violSeen: map[string]int{}, knownHit: map[string]string{}, maxViol: 3}
+		dist: map[string]int{}, violSeen: map[string]int{}, knownHit: map[string]string{}, maxViol: 2}
 	if b, err := os.ReadFile(knownFile); err == nil {
 		var all []knownFinding
 		if err := json.Unmarshal(b, &all); err != nil {
@@ -270,7 +270,7 @@ func (r *runner) report(kind string, o *obs, what string) {
 		r.knownHit[k.ID] = k.What
 		return
 	}
-	key := kind + "/" + o.Suite
+	key := kind + "/" + o.Suite + "/" + o.Sig
 	r.violSeen[key]++
 	if r.violSeen[key] > r.maxViol {
 		return
